@@ -133,6 +133,10 @@ impl<K, S: VStream> StreamMap<K, S> {
     pub uninterp spec fn budget(&self) -> nat;
     #[verifier::external_body] pub fn new() -> (r: Self) ensures r.yielded() == Seq::<S::Item>::empty(), r.empty(), r.budget() == 0 { unimplemented!() }
     #[verifier::external_body] pub fn is_empty(&self) -> (r: bool) ensures r == self.empty() { unimplemented!() }
+    #[verifier::external_body] pub fn len(&self) -> (r: usize) ensures (r == 0) == self.empty() { unimplemented!() }
+    #[verifier::external_body] pub fn contains_key(&self, k: &K) -> (r: bool) { unimplemented!() }
+    #[verifier::external_body] pub fn remove(&mut self, k: &K) -> (r: Option<S>)
+        ensures final(self).yielded() == old(self).yielded(), final(self).yielded_keys() == old(self).yielded_keys(), final(self).budget() <= old(self).budget() { unimplemented!() }
     #[verifier::external_body] pub fn insert(&mut self, k: K, st: S) -> (r: Option<S>)
         ensures !final(self).empty(), final(self).yielded() == old(self).yielded(), final(self).yielded_keys() == old(self).yielded_keys(), final(self).budget() == old(self).budget() + st.budget() { unimplemented!() }
     #[verifier::external_body] pub fn poll_next(&mut self, cx: &mut Context) -> (r: Poll<Option<(K, S::Item)>>)
